@@ -259,6 +259,17 @@ func (w *world) open() error {
 	return nil
 }
 
+// lastBlock: the bytes the row returned by the last buildRow points into; spoilBlock overwrites them (the write path
+// reuses the row block for the next batch once the rows are done)
+var lastBlock []byte
+
+func spoilBlock() {
+	for i := range lastBlock {
+		lastBlock[i] = '#'
+	}
+	lastBlock = nil
+}
+
 func buildRow(name string, tags map[string]string) *metric.StorageRow {
 	pm := &protoMetricsV1.Metric{
 		Name:      name,
@@ -283,7 +294,8 @@ func buildRow(name string, tags map[string]string) *metric.StorageRow {
 		panic(err)
 	}
 	var br metric.StorageBatchRows
-	br.UnmarshalRows(buf.Bytes())
+	lastBlock = buf.Bytes()
+	br.UnmarshalRows(lastBlock)
 	return br.Rows()[0]
 }
 
@@ -301,6 +313,7 @@ func (w *world) write(tags map[int]string) error {
 	}
 	w.seen[key] = true
 	sid, err := w.idx.GenSeriesID(w.mid, buildRow("m1", named))
+	spoilBlock()
 	if err != nil {
 		return err
 	}
